@@ -18,6 +18,11 @@ func CompileGlobs(globs []string) (*regexp.Regexp, error) {
 
 	// The alternation is grouped so that the anchors apply to every glob, not just to the
 	// first and the last one.
+	if len(globs) == 0 {
+		// No pattern matches nothing; an empty alternation would match the empty path.
+		return regexp.Compile(`^[^\s\S]`)
+	}
+
 	var pattern strings.Builder
 	// (s: the dot that ? and ** compile to matches a line break as well)
 	pattern.WriteString("^(?s:")
